@@ -5,31 +5,33 @@ Import ListNotations.
 
 Lemma eval_ss_rename pi (s s' : nat -> Qc) e : (forall x, In x (evars e) -> s' (pi x) = s x) -> qeval_ss s' (rename_expr pi e) = qeval_ss s e.
 Proof.
-  unfold qeval_ss. induction e as [x|c|k e IH|e IH|e IH|a IHa b IHb|a IHa b IHb|a IHa b IHb|a IHa b IHb|a IHa n]; intros H;
+  unfold qeval_ss. induction e as [x|c|k e IH|e IH|e IH|a IHa b IHb|a IHa b IHb|a IHa b IHb|a IHa b IHb|a IHa n|g dg e IHg]; intros H;
     cbn [SimpleBlk.eval_ss evars rename_expr] in *; try reflexivity;
     try (rewrite IH by exact H; reflexivity);
     try (rewrite IHa, IHb by (intros; apply H; apply in_or_app; auto); reflexivity).
   - apply H. left; reflexivity.
   - rewrite IHa by exact H. reflexivity.
+  - rewrite IHg by exact H. reflexivity.
 Qed.
 
 Lemma eval_ssi_rename pi (s s' i0 i0' : nat -> Qc) e : (forall x, In x (evars e) -> s' (pi x) = s x) -> (forall x, In x (evars e) -> i0' (pi x) = i0 x) ->
   eval_ssi Qc q1 Qcplus Qcmult Qcminus Qcopp Qcdiv s' i0' (rename_expr pi e) = eval_ssi Qc q1 Qcplus Qcmult Qcminus Qcopp Qcdiv s i0 e.
 Proof.
-  induction e as [x|c|k e IH|e IH|e IH|a IHa b IHb|a IHa b IHb|a IHa b IHb|a IHa b IHb|a IHa n]; intros H H0;
+  induction e as [x|c|k e IH|e IH|e IH|a IHa b IHb|a IHa b IHb|a IHa b IHb|a IHa b IHb|a IHa n|g dg e IHg]; intros H H0;
     cbn [SimpleBlk.eval_ssi evars rename_expr] in *; try reflexivity;
     try (rewrite IH by assumption; reflexivity);
     try (rewrite IHa, IHb by (intros; (apply H || apply H0); apply in_or_app; auto); reflexivity).
   - apply H0. left; reflexivity.
   - apply (eval_ss_rename pi s s' e H).
   - rewrite IHa by assumption. reflexivity.
+  - rewrite IHg by assumption. reflexivity.
 Qed.
 
 Lemma eval_td_rename pi T (s s' i0 i0' : nat -> Qc) (env env' : nat -> Z -> Qc) e :
   (forall x, In x (evars e) -> s' (pi x) = s x) -> (forall x, In x (evars e) -> i0' (pi x) = i0 x) -> (forall x, In x (evars e) -> forall u, env' (pi x) u = env x u) ->
   forall t, qeval_td T s' i0' env' (rename_expr pi e) t = qeval_td T s i0 env e t.
 Proof.
-  unfold qeval_td. induction e as [x|c|k e IH|e IH|e IH|a IHa b IHb|a IHa b IHb|a IHa b IHb|a IHa b IHb|a IHa n]; intros H H0 He t;
+  unfold qeval_td. induction e as [x|c|k e IH|e IH|e IH|a IHa b IHb|a IHa b IHb|a IHa b IHb|a IHa b IHb|a IHa n|g dg e IHg]; intros H H0 He t;
     cbn [SimpleBlk.eval_td evars rename_expr] in *; try reflexivity;
     try (rewrite IH by assumption; reflexivity);
     try (rewrite IHa, IHb by (intros; (apply H || apply H0 || apply He); apply in_or_app; auto); reflexivity).
@@ -38,6 +40,7 @@ Proof.
     destruct (t + k <? 0)%Z; [reflexivity|]. destruct T as [T'|]; [destruct (T' <=? t + k)%Z; [reflexivity | apply IH; assumption] | apply IH; assumption].
   - apply (eval_ss_rename pi s s' e H).
   - rewrite IHa by assumption. reflexivity.
+  - rewrite IHg by assumption. reflexivity.
 Qed.
 
 (** one update of a name-indexed list on both sides of a renaming *)
@@ -139,7 +142,7 @@ Lemma accum_rename pi (s s' : nat -> Qc) x0 e N : (forall x y, (x < N)%nat -> (y
   accum Qc q0 q1 Qcplus Qcmult Qcminus Qcopp Qcdiv (fun x => Qc_eq_bool x q0) s' (pi x0) (rename_expr pi e)
   = accum Qc q0 q1 Qcplus Qcmult Qcminus Qcopp Qcdiv (fun x => Qc_eq_bool x q0) s x0 e.
 Proof.
-  intros Hinj Hx0. induction e as [x|c|k e IH|e IH|e IH|a IHa b IHb|a IHa b IHb|a IHa b IHb|a IHa b IHb|a IHa n]; intros H;
+  intros Hinj Hx0. induction e as [x|c|k e IH|e IH|e IH|a IHa b IHb|a IHa b IHb|a IHa b IHb|a IHa b IHb|a IHa n|g dg e IHg]; intros H;
     cbn [accum evars rename_expr] in *; try reflexivity;
     try (rewrite IH by exact H; reflexivity);
     try (rewrite IHa, IHb by (intros; apply H; apply in_or_app; auto); reflexivity).
@@ -147,6 +150,7 @@ Proof.
     destruct (Nat.eqb_spec x x0) as [->|Hne]; [rewrite Nat.eqb_refl; reflexivity|].
     destruct (Nat.eqb_spec (pi x) (pi x0)) as [E|_]; [exfalso; apply Hne; apply Hinj; assumption | reflexivity].
   - rewrite IHa by exact H. reflexivity.
+  - rewrite IHg by exact H. reflexivity.
 Qed.
 
 Theorem jac_entry_renamed_lemma pi (s s' : tbl) x0 e N N' : renaming pi N N' -> tbl_renamed pi N s s' -> (x0 < N)%nat ->
